@@ -65,7 +65,9 @@ def run_job(job):
             long_u, long_s = b"U" * 300, b"S" * 257
             for idu, ids, ctx, lab in [(None, None, None, "none"), (b"client-id", None, None, "client-only"), (None, b"server-id", b"c", "server-only"),
                                        (b"client-id", b"server-id", None, "both"), (long_u, None, None, "long-client-only"), (None, long_s, None, "long-server-only"),
-                                       (long_u, long_s, b"x" * 300, "long-both"), (b"", b"", b"", "empty-strings")]:
+                                       (long_u, long_s, b"x" * 300, "long-both"), (b"", b"", b"", "empty-strings"),
+                                       (None, spk, None, "server-id-is-its-key"), (b"u", bytes.fromhex(o.pk), None, "server-id-is-another-key"),
+                                       (spk, spk, None, "both-ids-are-the-server-key")]:
                 pw, cred = b"pw-%d" % wi, b"user-%d" % rnd.randrange(1000)
                 reg = proto.register(s, rng, "A", pw, cred, id_u=idu, id_s=ids, wire=False, tag="g")
                 evals += 4
@@ -122,7 +124,7 @@ def floors(tier, stats, results):
     missing = [x for x in okv.SUITES20 if stats.get("suites", {}).get(x, 0) < 30]
     if missing:
         out.append("fewer than 30 impostor logins for suites %s" % missing)
-    for k in ("none", "client-only", "server-only", "both", "long-client-only", "long-server-only", "long-both", "empty-strings"):
+    for k in ("none", "client-only", "server-only", "both", "long-client-only", "long-server-only", "long-both", "empty-strings", "server-id-is-its-key", "server-id-is-another-key", "both-ids-are-the-server-key"):
         if stats.get("by_ids", {}).get(k, 0) < 100:
             out.append("identity configuration %s under-observed" % k)
     return out
